@@ -205,14 +205,11 @@ def clipHalf (a : Axis) (keepLE : Bool) (v : α) : List (Pt α) → List (Pt α)
 def samePt (p q : Pt α) : Bool :=
   PyNum.le p.x q.x && PyNum.le q.x p.x && PyNum.le p.y q.y && PyNum.le q.y p.y
 
-def lastOr (d : Pt α) : List (Pt α) → Pt α
-  | [] => d
-  | p :: rest => lastOr p rest
-
 /-- `Polygon(coords)`: the ring is closed by repeating the first vertex (unless it already ends there) -/
-def closeRing : List (Pt α) → List (Pt α)
-  | [] => []
-  | p :: rest => if samePt p (lastOr p rest) && !rest.isEmpty then p :: rest else p :: rest ++ [p]
+def closeRing (l : List (Pt α)) : List (Pt α) :=
+  match l.head?, l.getLast? with
+  | some p, some q => if samePt p q && decide (1 < l.length) then l else l ++ [p]
+  | _, _ => l
 
 /-- clip of a closed ring against one border of the window -/
 def clipExt (a : Axis) (keepLE : Bool) (b : Ext α) (l : List (Pt α)) : List (Pt α) :=
@@ -221,9 +218,30 @@ def clipExt (a : Axis) (keepLE : Bool) (b : Ext α) (l : List (Pt α)) : List (P
   | .ninf => if keepLE then [] else l
   | .pinf => if keepLE then l else []
 
-/-- `clip_by_rect(polygon, xmin, ymin, xmax, ymax)` on a closed ring -/
+/-- the border crossings of the segment `p q` with an x-window, in the order in which the segment meets them -/
+def crossBoth (lo hi : α) (p q : Pt α) : List (Pt α) :=
+  if PyNum.lt p.x q.x then
+    (if between lo p.x q.x then [crossOn .x lo p q] else []) ++ (if between hi p.x q.x then [crossOn .x hi p q] else [])
+  else
+    (if between hi p.x q.x then [crossOn .x hi p q] else []) ++ (if between lo p.x q.x then [crossOn .x lo p q] else [])
+
+def crossBothNext (lo hi : α) (p : Pt α) : List (Pt α) → List (Pt α)
+  | [] => []
+  | q :: _ => crossBoth lo hi p q
+
+/-- clip to the strip `lo ≤ x ≤ hi` in ONE walk along the vertex list: keep the vertices inside, insert the border
+    crossings of every segment (where the boundary leaves and re-enters through the same border the two crossing points
+    become neighbours: the piece of the window border between them) -/
+def clipWalkX (lo hi : α) : List (Pt α) → List (Pt α)
+  | [] => []
+  | p :: rest => (if insideX lo hi p then [p] else []) ++ crossBothNext lo hi p rest ++ clipWalkX lo hi rest
+
+/-- `clip_by_rect(polygon, xmin, ymin, xmax, ymax)` on a closed ring: an x-strip (the two-roll constructions) is clipped
+    in one walk, any other window border by border -/
 def clipRectVL (l : List (Pt α)) (xmin ymin xmax ymax : Ext α) : List (Pt α) :=
-  clipExt .y true ymax (clipExt .y false ymin (clipExt .x true xmax (clipExt .x false xmin l)))
+  match xmin, ymin, xmax, ymax with
+  | .fin lo, .ninf, .fin hi, .pinf => closeRing (clipWalkX lo hi l)
+  | _, _, _, _ => clipExt .y true ymax (clipExt .y false ymin (clipExt .x true xmax (clipExt .x false xmin l)))
 
 /-- twice the signed area and the first moments of a closed ring (shoelace), one pass -/
 def ringSums : List (Pt α) → α × α × α
